@@ -97,6 +97,17 @@ CHECKS = {
         note="Poses are a fixed list of lattice and rational motions; real-valued poses are covered by C02/C04 laws.",
         technique="TLA+ exact point-action model enumerated by TLC; per-route replay",
         ref="6 (C06)"),
+    "C07": dict(
+        text="Validity.tla defines item kinds (valid, near = don't-care band, far kinds: non-orthogonal, scaled, reflection, "
+             "corrupted last row, non-algebra-form twist matrices, zero / non-unit quaternion), container forms and the "
+             "outcome accept / reject / reject-or-normalise; TLC checks its sanity (one far item anywhere forces "
+             "rejection) and enumerates every (class, form, sequence of up to 3 item kinds), every (class, object of "
+             "another class) and every (predicate, argument kind). Each case is realised on several members, "
+             "magnitudes 1e-5..1 and entries; outcomes, absence of None / foreign elements and, on acceptance, equality "
+             "of the stored items with the supplied ones are compared. Exhaustive over the finite kind space.",
+        note="Perturbations of 1e-12..1e-7 are explored and counted, never judged (the statement's 1e-6 band).",
+        technique="TLA+ validity table machine enumerated by TLC; gamma_defect realisation and replay",
+        ref="6 (C07)"),
 }
 
 ENGINE = {"name": "tlc-replay", "path": "/verif/check",
